@@ -276,8 +276,11 @@ fn delete_old_output(path: &Path) {
 /// Reusing the existing file would also be an option, but that wouldn't error if the file is
 /// currently being executed and would change what's seen by processes that have the file mapped.
 fn unlink_old_output(path: &Path) -> Result {
-    // Only unlink regular files. We don't want to delete e.g. /dev/null.
-    if !std::fs::symlink_metadata(path).is_ok_and(|m| m.file_type().is_file()) {
+    // Only unlink regular files and symlinks. We don't want to delete e.g. /dev/null. A symlink is
+    // removed rather than followed, otherwise we'd rewrite the file it points to in place.
+    if !std::fs::symlink_metadata(path)
+        .is_ok_and(|m| m.file_type().is_file() || m.file_type().is_symlink())
+    {
         return Ok(());
     }
 
